@@ -215,7 +215,7 @@ class ShardStats:
         if slice_name:
             self.slices[slice_name] = self.slices.get(slice_name, 0) + 1
         if ctx.nontrivial:
-            d = case_digest(ctx.trace if ctx.trace else case)
+            d = case_digest(ctx.trace if (ctx.trace and ctx.want_trace) else case)
             if d not in self.nt_digests:
                 self.nt_digests.add(d)
                 if len(self.samples) < max_samples:
